@@ -97,7 +97,7 @@ PROPS = {
         "verus": [("bins", "N"), ("grid", "N")],
         "enum": [{"name": "bins"}],
         "assumptions": [A_ORD, A_STD, A_VERUS, A_EXTRACT, A_ENUM],
-        "assumed_repo_fns": ["src/histogram/bins.rs Bins::range_of, Edges::from(Array1), Edges::as_array_view/iter; src/histogram/grid.rs Grid::{index,projections}: bounded enumeration only (Grid::{ndim,shape,index_of} are verified in unit grid)"],
+        "assumed_repo_fns": ["src/histogram/bins.rs Edges::as_array_view/iter; src/histogram/grid.rs Grid::{index,projections}: bounded enumeration only (Grid::{ndim,shape,index_of} are verified in unit grid)"],
         "not_decided": [],
     },
     "C17": {
